@@ -26,6 +26,11 @@ THEOREMS = [
     "Ts.World.C06_world_kept_nodup",
     "Ts.World.C06_world_replicated_bytes_once",
     "Ts.World.C07_world_replicated_everywhere",
+    # which paths a replication glob selects (TsModel/Glob.lean, tied to fnmatch.fnmatch and to the real replicated sets)
+    "Ts.Glob.glob_subtree",
+    "Ts.Glob.glob_subtree_sibling",
+    "Ts.Glob.glob_star_all",
+    "Ts.Glob.glob_literal",
 ]
 BUDGET_S = (100, 840)
 RULE = ("partition: W in 1..8 simulated ranks, random flat states of replicated / non-replicated tensors and objects with "
@@ -699,6 +704,8 @@ def run(ctx: Ctx):
         for l0, whole, chunks in CORPUS:
             _loads_one(ctx, l0, whole, chunks, "corpus")
     _loads_exhaustive(ctx)
+    import globtie
+    globtie.fnmatch_suite(ctx, ctx.n(1500, 20000))
     # whole-job tie of the C06_world_* theorems (shared with C01): the real partition is fed to the Lean job model
     from props import c01_world
     for i in range(ctx.n(40, 500)):
